@@ -78,6 +78,25 @@ def router_program(pt, k):
     return r
 
 
+def siblings_program(pt, k):
+    """two sibling subroutines, each owning scratch slots: which one is declared first decides the slot numbers"""
+    @pt.Subroutine(pt.TealType.uint64)
+    def left(a):
+        x, y = pt.ScratchVar(pt.TealType.uint64), pt.ScratchVar(pt.TealType.uint64)
+        return pt.Seq(x.store(a + pt.Int(1)), y.store(x.load() * pt.Int(2)), pt.Return(x.load() + y.load()))
+
+    @pt.Subroutine(pt.TealType.uint64)
+    def right(a):
+        z = pt.ScratchVar(pt.TealType.uint64)
+        return pt.Seq(z.store(a + pt.Int(k + 3)), pt.Return(z.load() * z.load()))
+
+    @pt.Subroutine(pt.TealType.uint64)
+    def third(a):
+        w = pt.ScratchVar(pt.TealType.uint64)
+        return pt.Seq(w.store(a), pt.Return(w.load() + left(a)))
+    return pt.Return(left(pt.Int(1)) + right(pt.Int(2)) + third(pt.Int(3)))
+
+
 def router_fail_program(pt, k):
     """a router whose clear-state program needs version 7 (sha3_256): compile_program(version=6) evaluates the whole approval
     program and then fails.  Void methods first, one value-returning method last (keeps clear of the known repeat:router finding)."""
@@ -151,6 +170,13 @@ def main():
                 if job.get("repeat_same_object"):
                     a2, c2, _ = r.compile_program(version=version)
                     d.append(hashlib.sha1((a2 + "||" + c2).encode()).hexdigest())
+            elif kind == "siblings":
+                # the same source built from scratch many times in one process: the process-wide subroutine counter crosses 9/10 and 99/100
+                _, k, version = item
+                d = []
+                for rep in range(45):
+                    t = pt.compileTeal(siblings_program(pt, k), pt.Mode.Application, version=version, optimize=pt.OptimizeOptions(scratch_slots=False, frame_pointers=False) if version >= 8 else None)
+                    d.append(hashlib.sha1(t.encode()).hexdigest())
             elif kind == "routerfail":
                 _, k, version = item
                 r = router_fail_program(pt, k)
